@@ -1,5 +1,6 @@
 """C12 - Dependency cycles end in an error, never in a hang."""
 import itertools
+import os
 import random
 import re
 import time
@@ -16,36 +17,59 @@ rc=$?
 set -e
 echo "RC $1 $$ $rc" >&9
 %(after)s
+%(extra)s
 echo "x $1" > "$3"
+%(stamp)s
 echo "E $1 $$ 0" >&9
 '''
 
 
-def build_files(L, P, nb, na, tolerant, slow):
+def build_files(L, P, nb, na, tolerant, slow, late=None):
     files = {'default.leaf.do': scen.leaf_do('sleep 0.02' if slow else '')}
     after = 'true' if tolerant else '[ $rc = 0 ] || { echo "E $1 $$ $rc" >&9; exit $rc; }'
     cyc = ['c%d' % i for i in range(L)]
     for i, n in enumerate(cyc):
         nxt = cyc[(i + 1) % L]
         deps = ['b%d_%d.leaf' % (i, k) for k in range(nb)] + [nxt] + ['a%d_%d.leaf' % (i, k) for k in range(na)]
-        files[n + '.do'] = NODE % dict(deps=' '.join(deps), after=after)
+        extra, stamp = 'true', 'true'
+        if late and i == L - 1:
+            if 'always' in late:
+                extra = 'redo-always'
+            if 'stamp' in late:
+                stamp = 'redo-stamp < "$3"'
+        files[n + '.do'] = NODE % dict(deps=' '.join(deps), after=after, extra=extra, stamp=stamp)
     pre = ['p%d' % i for i in range(P)]
     for i, n in enumerate(pre):
         nxt = pre[i + 1] if i + 1 < P else None
-        files[n + '.do'] = NODE % dict(deps='%s', after=after)   # filled by entry below
+        files[n + '.do'] = NODE % dict(deps='%s', after=after, extra='true', stamp='true')   # filled by entry below
     return files, cyc, pre
 
 
 def cycle_case(item):
-    L, P, nb, na, entries, j, tolerant, rerun, slow = item
-    files, cyc, pre = build_files(L, P, nb, na, tolerant, slow)
+    L, P, nb, na, entries, j, tolerant, rerun, slow = item[:9]
+    late = item[9] if len(item) > 9 else None
+    files, cyc, pre = build_files(L, P, nb, na, tolerant, slow, late)
     # prefix chain p0 -> p1 -> ... -> entry node(s)
     ent = [cyc[e % L] for e in entries]
     for i, n in enumerate(pre):
         nxt = [pre[i + 1]] if i + 1 < P else ent
         files[n + '.do'] = files[n + '.do'] % ' '.join(nxt)
     top = [pre[0]] if pre else ent
+    closing = None
+    if late:
+        # first an acyclic version (the last node does not point back yet), built once; the edit that
+        # closes the cycle comes afterwards, so the cycle is met through recorded state
+        last = cyc[-1] + '.do'
+        closing = files[last]
+        files[last] = closing.replace(' ' + cyc[0] + ' ', ' ').replace(' ' + cyc[0] + '\n', ' nocycle.leaf\n')
     pj = scen.Project(files, 'c12')
+    if late:
+        r0, _ = pj.run((['redo', '-j%d' % j] if j > 1 else ['redo-ifchange']) + top, timeout=40)
+        if r0.rc != 0 or r0.status != 'exit':
+            pj.close()
+            return dict(verdict='inconclusive', why='acyclic first build failed: %s' % r0.err[-200:], sample=dict(item=list(item)))
+        common.write_file(os.path.join(pj.top, last), closing)
+        os.utime(os.path.join(pj.top, last), ns=(2 * 10 ** 18, 2 * 10 ** 18))
     multi = len(set(ent)) > 1
     anoms = []
     obs = dict(cycle_runs=0)
@@ -60,7 +84,7 @@ def cycle_case(item):
             obs['cycle_runs'] += 1
             tr = pj.trace_text()
             rcs = re.findall(r'^RC \S+ \d+ (\d+)', tr, re.M)
-            where = 'multi-entry' if multi else 'single-entry'
+            where = ('multi-entry' if multi else 'single-entry') + (':cycle-closed-after-a-build:%s' % late if late else '')
             phase = 'rerun' if attempt else 'first'
             if r.status == 'timeout':
                 return dict(verdict='inconclusive', why='watchdog without stuck witness: %s' % (r.witness,), sample=dict(item=list(item)))
@@ -84,7 +108,7 @@ def cycle_case(item):
     finally:
         pj.close()
     res = dict(verdict='violated' if anoms else 'held', nontrivial=True, shape=common.shash(list(item)),
-               sample=dict(L=L, prefix=P, siblings_before=nb, siblings_after=na, entries=ent, j=j, tolerant=tolerant, rerun=rerun),
+               sample=dict(L=L, prefix=P, siblings_before=nb, siblings_after=na, entries=ent, j=j, tolerant=tolerant, rerun=rerun, late=late),
                obs=obs, sets={k: sorted(v) for k, v in sets.items()})
     if anoms:
         res['violations'] = anoms
@@ -104,6 +128,13 @@ def items(tier):
                         for tolerant in ((False,) if quick else (False, True)):
                             for rerun in (False, True):
                                 out.append((L, P, nb, na, (e,), j, tolerant, rerun, False))
+    # the cycle is closed by an edit after a successful acyclic build; the closing node may be checksummed / always
+    for L in ((2, 3) if quick else (2, 3, 4, 5)):
+        for P in ((0, 1) if quick else (0, 1, 2)):
+            for late in ('plain', 'stamp', 'always+stamp'):
+                for e in range(L if not quick else min(L, 2)):
+                    for j in (1, 4):
+                        out.append((L, P, 0, 0, (e,), j, False, False, False, late))
     # entered at two nodes at once (one command, or a parent asking for both)
     for L in ((2, 3) if quick else (2, 3, 4)):
         for P in (0, 1):
